@@ -43,6 +43,17 @@ func (o *Obligation) render(forCVC5 bool) string {
 		if anc != nil && i < len(vc.lineTag) && vc.lineTag[i] >= 0 && !anc[vc.lineTag[i]] {
 			continue
 		}
+		if i < len(vc.lineScope) && vc.lineScope[i] != 0 && vc.lineScope[i] != o.Scope {
+			vis := false
+			for _, x := range o.Extra {
+				if x == vc.lineScope[i] {
+					vis = true
+				}
+			}
+			if !vis {
+				continue
+			}
+		}
 		sb.WriteString(l + "\n")
 	}
 	for _, h := range o.Hints {
@@ -71,6 +82,11 @@ type solverDef struct {
 var solvers = map[string]solverDef{
 	"z3-new": {"z3-new", func(f string, t, seed int) []string {
 		return []string{"z3-new", fmt.Sprintf("-T:%d", t), "smt.mbqi=false", fmt.Sprintf("smt.random_seed=%d", seed), fmt.Sprintf("sat.random_seed=%d", seed), f}
+	}},
+	// the same solver with relevancy propagation switched off: much faster on queries with many guarded
+	// array equalities (no extensionality splits on atoms that do not matter)
+	"z3-new-r0": {"z3-new-r0", func(f string, t, seed int) []string {
+		return []string{"z3-new", fmt.Sprintf("-T:%d", t), "smt.mbqi=false", "smt.relevancy=0", fmt.Sprintf("smt.random_seed=%d", seed), fmt.Sprintf("sat.random_seed=%d", seed), f}
 	}},
 	"z3": {"z3", func(f string, t, seed int) []string {
 		return []string{"z3", fmt.Sprintf("-T:%d", t), fmt.Sprintf("smt.random_seed=%d", seed), fmt.Sprintf("sat.random_seed=%d", seed), f}
@@ -138,6 +154,56 @@ func dischargeAll(obls []*Obligation, cfg runCfg) {
 	wg.Wait()
 }
 
+// raceSolvers runs several solver configurations on the same file concurrently and returns the first
+// definitive answer (unsat/sat); the others are killed.
+func raceSolvers(names []string, file string, timeout, seed int) (string, string, string, float64) {
+	type res struct {
+		name, verdict, out string
+		secs               float64
+	}
+	ctx, cancel := context.WithCancel(context.Background())
+	defer cancel()
+	ch := make(chan res, len(names))
+	for _, n := range names {
+		n := n
+		go func() {
+			def := solvers[n]
+			args := def.args(file, timeout, seed)
+			c2, cancel2 := context.WithTimeout(ctx, time.Duration(timeout+5)*time.Second)
+			defer cancel2()
+			cmd := exec.CommandContext(c2, args[0], args[1:]...)
+			var buf bytes.Buffer
+			cmd.Stdout = &buf
+			cmd.Stderr = &buf
+			t0 := time.Now()
+			_ = cmd.Run()
+			out := buf.String()
+			first := strings.TrimSpace(strings.SplitN(out, "\n", 2)[0])
+			v := "error"
+			switch first {
+			case "unsat", "sat", "unknown":
+				v = first
+			default:
+				if c2.Err() != nil || strings.Contains(out, "timeout") || strings.Contains(out, "interrupted") {
+					v = "timeout"
+				}
+			}
+			ch <- res{n, v, out, time.Since(t0).Seconds()}
+		}()
+	}
+	last := res{verdict: "timeout"}
+	for range names {
+		r := <-ch
+		if r.verdict == "unsat" || r.verdict == "sat" {
+			return r.name, r.verdict, r.out, r.secs
+		}
+		if last.name == "" || r.verdict == "unknown" {
+			last = r
+		}
+	}
+	return last.name, last.verdict, last.out, last.secs
+}
+
 func dischargeOne(o *Obligation, cfg runCfg) {
 	base := filepath.Join(cfg.dir, mangle(o.Name))
 	if len(base) > 200 {
@@ -147,12 +213,29 @@ func dischargeOne(o *Obligation, cfg runCfg) {
 	if o.Expect == "sat" {
 		want = "sat"
 	}
+	// group the z3 configurations that read the same file into one race
+	var groups [][]string
+	var z3group []string
+	for _, s := range cfg.order {
+		if s == "cvc5" {
+			continue
+		}
+		z3group = append(z3group, s)
+	}
+	if len(z3group) > 0 {
+		groups = append(groups, z3group)
+	}
+	for _, s := range cfg.order {
+		if s == "cvc5" {
+			groups = append(groups, []string{s})
+		}
+	}
 	var last, lastOut string
 	total := 0.0
-	for _, s := range cfg.order {
+	for _, g := range groups {
 		file := base + ".smt2"
-		txt := o.render(s == "cvc5")
-		if s == "cvc5" {
+		txt := o.render(g[0] == "cvc5")
+		if g[0] == "cvc5" {
 			file = base + ".cvc5.smt2"
 		}
 		if len(txt) > 4_000_000 {
@@ -161,11 +244,10 @@ func dischargeOne(o *Obligation, cfg runCfg) {
 		}
 		os.WriteFile(file, []byte(txt), 0o644)
 		o.File = file
-		v, out, secs := runSolver(s, file, cfg.timeout, cfg.seed)
+		s, v, out, secs := raceSolvers(g, file, cfg.timeout, cfg.seed)
 		total += secs
 		last, lastOut = v, out
 		if o.Expect == "sat" && v != "unsat" && v != "error" {
-			// smoke check: anything but a refutation is fine
 			o.Solver, o.Time, o.Status = s, total, "discharged"
 			if !cfg.keep {
 				os.Remove(file)
@@ -194,10 +276,6 @@ func dischargeOne(o *Obligation, cfg runCfg) {
 	o.Status = last
 	if last == "" {
 		o.Status = "error"
-	}
-	if o.Expect == "sat" && (last == "unknown" || last == "timeout") {
-		// smoke check: not refuted is what we want
-		o.Status = "discharged"
 	}
 	o.Output = lastOut
 }
